@@ -174,7 +174,7 @@ def bad_matchers(ctx, case):
         ctx.check('the error names the option', ('filter' if opt in ('-f', '--filter') else 'break') in str(raised))
 
 
-HOSTILE = ['plain', 'two words', 'say "hi"', "it's", 'back\\slash', 'trail\\', 'new\nline', 'tab\there', '\\"', '\'"\'', 'üñí', '$(x) `y` ;z', '', '\\n', 'a\rb', "x']; import os #"]
+HOSTILE = ['plain', '{}', '{0}{1}', '{script}', '}{', 'two words', 'say "hi"', "it's", 'back\\slash', 'trail\\', 'new\nline', 'tab\there', '\\"', '\'"\'', 'üñí', '$(x) `y` ;z', '', '\\n', 'a\rb', "x']; import os #"]
 
 
 class Tok(str):
@@ -221,13 +221,15 @@ def gdb_quoting(ctx, case):
     runner.verify_gdb_available = lambda: None
     try:
         nwords = case
-        if ctx.symbolic:
-            words = [Tok('w%d' % i) for i in range(nwords)]
-            fw = [Tok('f0'), Tok('f1')]
-            runs = [(words, fw)]
-        else:
-            # replay: hostile concrete words in every position
-            runs = [([h] * nwords, ['prog', h]) for h in HOSTILE]
+        # each word: opaque (any content) or one of a few concrete hostile spellings (braces, quotes, backslash, newline)
+        def opaque(name):
+            return Tok(name) if ctx.symbolic else 'plain_' + name
+        words = [ctx.choose([opaque('w%d' % i), '{}', 'a{0}b', '{script}', 'x}y{', "it's", 'q"q', 'back\\slash', 'new\nline'], 'word%d' % i) for i in range(nwords)]
+        fw = [opaque('f0'), ctx.choose([opaque('f1'), '{}', '-g'], 'fw1')]
+        runs = [(words, fw)]
+        if not ctx.symbolic:
+            # replay: the witness' own words first, then hostile concrete words in every position
+            runs += [([h] * nwords, ['prog', h]) for h in HOSTILE]
         for words, fw in runs:
             captured.clear()
             a = Arguments.default()
@@ -243,10 +245,11 @@ def gdb_quoting(ctx, case):
             pre = 'python import sys; sys.argv = ['
             ctx.check('the command re-creates sys.argv', cmd.startswith(pre) and ']; exec(open(' in cmd)
             lit = cmd[len(pre) - 1:cmd.index('; exec(open(')]
-            if ctx.symbolic:
+            if ctx.symbolic and any(isinstance(w, Tok) for w in words):
                 want = '[' + ', '.join([repr('/opt/wd/main.py')] + [repr(w) for w in words]) + ']'
                 alt = want.replace("'/opt/wd/main.py'", '"/opt/wd/main.py"')
                 ctx.check('every word reaches the literal through repr() only (so it decodes back for every possible word)', lit in (want, alt))
+                ctx.check('the script path is read back from a literal too', ('exec(open(' + repr('/opt/wd/main.py') + ').read())') in cmd or 'exec(open("/opt/wd/main.py").read())' in cmd)
             else:
                 try:
                     got = ast.literal_eval(lit)
